@@ -349,8 +349,9 @@ def r7_exact_match_and_short_input(ctx):
            any(sym.canon(r.value) == sym.canon(sym.parse_expr(f"out[..., :(-{ws} + 1) or None]")) for r in valid), "; ".join(u(r.value) for r in valid), key="C13-R7|valid-trim")
 
 
-from ..through_time import make_rule as _mk_tt
+from ..through_time import make_rule as _mk_tt, make_t2 as _mk_t2
 _through_time = _mk_tt("C13")
+_small_edits = _mk_t2("C13")
 
 def _delta_arrays(ctx):
     from ..idioms import check_delta_arrays
@@ -365,5 +366,6 @@ RULES = [
     ("C13-R6", r6_label_cache_keys),
     ("C13-R7", r7_exact_match_and_short_input),
     ("C13-T1", _through_time),
+    ("C13-T2", _small_edits),
     ("C13-R8", _delta_arrays),
 ]
